@@ -47,6 +47,18 @@ def main():
             sigs = [l.strip()[:300] for l in c.stdout.splitlines() if l.strip().startswith('config=')]
             out['checks'][p] = {'exit': c.returncode, 'violations': len(viol), 'first': sigs[:2], 'summary': [l for l in c.stdout.splitlines() if ' -> exit ' in l][-1:]}
         print(json.dumps(out, indent=1))
+        # record in meta.json what the verifier itself ran and saw (the author's own claims stay under 'verified')
+        meta['verifier'] = {
+            'ran': ['patch -p1 < patch.diff on a scratch copy of /repo/klepto (never on /repo itself)',
+                    'cd /tmp && PYTHONPATH=/repo /venv/bin/python demo.py  -> exit %s' % out['demo_clean_exit'],
+                    'cd /tmp && PYTHONPATH=<scratch> /venv/bin/python demo.py  -> exit %s' % out['demo_changed_exit'],
+                    'pytest klepto/tests on the scratch copy -> %s' % out['tests']] +
+                   ['KLEPTO_VERIF_REPO=<scratch> ./check %s %s -> exit %s (%d violations)' % (p, tier, c['exit'], c['violations']) for p, c in out['checks'].items()],
+            'confirmed': bool(out['demo_clean_exit'] == 0 and out['demo_changed_exit'] not in (0, None) and out['tests_ok']),
+            'repo_head': sh('git -C /repo log --format=%h -1').stdout.strip(),
+        }
+        with open(os.path.join(d, 'meta.json'), 'w') as f:
+            json.dump(meta, f, indent=1)
     finally:
         shutil.rmtree(scratch, ignore_errors=True)
     return 0
